@@ -38,6 +38,10 @@ package types
 //@   ensures result <==> (isnil(x) || nilptr(x))
 //@ axiom singletons_set: XNumberZero != nil && XTextEmpty != nil && XBooleanFalse != nil && XBooleanTrue != nil && XDateTimeZero != nil && XDateZero != nil && XTimeZero != nil && XArrayEmpty != nil && XObjectEmpty != nil
 
+// the zero singleton is the number zero (`var XNumberZero = NewXNumber(decimal.Zero)`; only the package initialiser
+// assigns it - globals_init_only - and XNumber::native is immutable; decimal.Zero being 0 is an assumption on the dependency)
+//@ axiom zero_is_zero: XNumberZero != nil && dec(XNumberZero.native) == 0
+
 //@ func NewXNumber
 //@   assigns nothing
 //@   ensures result != nil
